@@ -54,7 +54,7 @@ class Session:
             ref = L.parse(self.text)
         except Exception as e:  # noqa: BLE001
             ctx.fail("chart-parses", f"well-formed chart rejected: {type(e).__name__}: {e}",
-                     {"text": self.text})
+                     {"spec": spec, "ops": []})
             self.chart = None
             return
         self.obs0 = observation(ref)
@@ -277,8 +277,10 @@ class Session:
 
 def _unsorted_variant(spec, draw):
     spec = dict(spec)
-    first_b = next(it for it in spec["sync"] if it[1] == "B")
-    spec["sync"] = [[0, "TS", 4], [0, "B", first_b[2]]]
+    # the fastest tempo of the original map: every tick is then reached no later than before, so all
+    # times stay inside the domain (a slower single tempo could overflow timedelta)
+    fastest = max(it[2] for it in spec["sync"] if it[1] == "B")
+    spec["sync"] = [[0, "TS", 4], [0, "B", fastest]]
     tracks = {}
     for h, items in spec["tracks"].items():
         groups: dict = {}
